@@ -150,9 +150,14 @@ def gen_script(rnd, length, families, max_snaps):
             ops.append({"a": "Tick", "d": rnd.choice([0, 1, 3, 9, 10, 11, 25, 60, 3600])})
         elif r < 0.77:
             ops.append({"a": "Reset", "metric": rnd.choice(METRICS), "limit": rnd.choice([0, -1, 1, 2, 5, 20000])})
-        elif r < 0.87:
+        elif r < 0.83:
             n = rnd.choice([1, 1, 2, 3])
             ops.append({"a": "Del", "ids": sorted(set(rnd.randint(1, nkeys + 2) for _ in range(n)))})
+        elif r < 0.89:
+            # the newest mappings go (MAX(id) of the table drops), then the busy metric asks again
+            ops.append({"a": "DelTop", "n": rnd.choice([0, 0, 1, 2, 3])})
+            ops.append({"a": "Goc", "metric": hot, "key": rnd.choice(keys)})
+            ops.append({"a": "Goc", "metric": hot, "key": rnd.choice(keys)})
         else:
             n = rnd.choice([0, 1, 1, 2])
             ops.append({"a": "Put", "ks": [rnd.choice(keys) for _ in range(n)], "vs": [rnd.randint(1, nkeys + 6) for _ in range(n)]})
@@ -235,10 +240,35 @@ def _shape(item):
     return tuple(out)
 
 
-def sample(ctx, items, n, salt=0):
+def newest_deleted_then_asked(item):
+    """History class: a deletion removes the newest mapping (MAX(id) of the table drops) after a
+    creation was refused or beyond the global budget, and the metric asks for a new key afterwards."""
+    glob = item["c"]["global"]
+    top, seen_del = 0, False
+    for st in item["steps"]:
+        a = st.get("a")
+        m = (st.get("post") or {}).get("m")
+        if a == "Del" and m is not None:
+            now = max([x[1] for x in m] + [0])
+            if top > glob and now < top:
+                seen_del = True
+        elif a == "Goc" and seen_del and st.get("kind") in ("flood", "created"):
+            return True
+        if m is not None:
+            top = max([x[1] for x in m] + [0])
+    return False
+
+
+def sample(ctx, items, n, salt=0, first=None):
     """Seeded sample that favours variety: behaviours are grouped by the shape of their operation
-    sequence (operation, outcome class) and the groups are served round-robin."""
+    sequence (operation, outcome class) and the groups are served round-robin.  Behaviours
+    satisfying `first` are taken before the others (up to half of the sample)."""
     rnd = random.Random(ctx.seed * 104729 + salt)
+    if first is not None:
+        pri = [it for it in items if first(it)]
+        rest = [it for it in items if not first(it)]
+        take = sample(ctx, pri, n // 2, salt + 1000003)
+        return take + sample(ctx, rest, n - len(take), salt)
     groups = {}
     for it in items:
         groups.setdefault(_shape(it), []).append(it)
